@@ -364,7 +364,7 @@ pub fn run_random(tr: &mut Trace, run: u64, seed: u64, prof: Profile) -> RunStat
             let s = hc.verif_snapshot();
             tr.line(json!({"ev": "Quiesced", "ep": p.ep[e].name, "pending": p.ep[e].last_pending, "bufsize": p.ep[e].last_bufsize.min(2_000_000_000),
                 "t": p.t_ms(), "tail_ms": p.t_ms() - tail_start, "horizon_ms": horizon_ms.min(2_000_000_000), "reached": st.quiesced, "cut": cut,
-                "rate": s.rate.send_rate, "rmode": s.rate.mode, "credit": s.flush_alloc.clamp(-2_000_000_000, 2_000_000_000), "rx_alloc": s.rx_alloc}));
+                "rate": s.rate.send_rate, "rmode": s.rate.mode, "credit": s.flush_alloc.clamp(-2_000_000_000, 2_000_000_000), "rx_alloc": s.rx_alloc, "honest": !tampered_run}));
         }
     }
     tr.line(json!({"ev": "End", "run": run, "dead": p.dead, "calls": p.calls}));
